@@ -486,7 +486,6 @@ def main(argv=None):
         faulthandler.register(_signal.SIGUSR1, all_threads=True)
     except (AttributeError, ValueError):
         pass
-    faulthandler.dump_traceback_later(4 * 3600, exit=True)
 
     world_cls = get_world(args.prop)
     prop = world_cls.PROP
@@ -545,6 +544,10 @@ def main(argv=None):
     nruns = args.runs or getattr(world_cls, "RUNS")[tier]
     workers = args.workers or int(os.environ.get("VERIF_WORKERS", "16"))
     wall_cap = args.wall_cap or getattr(world_cls, "WALL_CAP")[tier]
+    # watchdog: a check still alive long after all its budgets dumps every
+    # Python stack and exits non-zero (never a verdict)
+    faulthandler.dump_traceback_later(
+        wall_cap + getattr(world_cls, "SHRINK_WALL", {"quick": 240, "thorough": 900})[tier] + 1200, exit=True)
     log(f"tier={tier} VERIF_SEED={base_seed} runs={nruns} workers={workers} "
         f"PYTHONHASHSEED={os.environ.get('PYTHONHASHSEED')}")
     t_start = time.time()
